@@ -88,30 +88,37 @@ def mapME {α β : Type} (f : α → Except Err β) : List α → Except Err (Li
       | .error e => .error e
       | .ok ys => .ok (y :: ys)
 
-/-- Loop body of `Annotation.__getitem__` for one location; `iF`/`iL` are `i_first`/`i_last`
-(inclusive).  `none`: the location is out of scope. -/
-def sliceLocE (iF iL : Int) (l : Loc) : Except Err (Option Loc) :=
-  if l.first ≤ iL ∧ l.last ≥ iF ∧ iF ≤ iL then
-    let d0 := l.defect
-    let d1 := if l.first < iF then { d0 with missLeft := true } else d0
-    let first := if l.first < iF then iF else l.first
-    let d2 := if l.last > iL then { d1 with missRight := true } else d1
-    let last := if l.last > iL then iL else l.last
+/-- Loop body of `Annotation.__getitem__` for one location.  `iF`/`iL` are `i_first`/`i_last`
+(inclusive); `none` is the infinite bound `∓float("inf")` of an open side, which compares below /
+above every position.  Result `none`: the location is out of scope. -/
+def sliceLocE (iF iL : Option Int) (l : Loc) : Except Err (Option Loc) :=
+  let inScope : Bool :=
+    (match iL with | none => true | some y => decide (l.first ≤ y)) &&
+    (match iF with | none => true | some x => decide (l.last ≥ x)) &&
+    (match iF, iL with | some x, some y => decide (x ≤ y) | _, _ => true)
+  if inScope then
+    let cutL : Bool := match iF with | none => false | some x => decide (l.first < x)
+    let cutR : Bool := match iL with | none => false | some y => decide (l.last > y)
+    let d1 := if cutL then { l.defect with missLeft := true } else l.defect
+    let first := if cutL then iF.getD l.first else l.first
+    let d2 := if cutR then { d1 with missRight := true } else d1
+    let last := if cutR then iL.getD l.last else l.last
     match mkLoc first last l.strand d2 with
     | .error e => .error e
     | .ok l' => .ok (some l')
   else .ok none
 
 /-- Loop body of `Annotation.__getitem__` for one feature. -/
-def sliceFeatureE (iF iL : Int) (f : Feature) : Except Err (Option Feature) :=
+def sliceFeatureE (iF iL : Option Int) (f : Feature) : Except Err (Option Feature) :=
   match mapME (sliceLocE iF iL) f.locs with
   | .error e => .error e
   | .ok ls =>
     let inScope := ls.filterMap id
     if inScope.length > 0 then .ok (some { f with locs := inScope }) else .ok none
 
-def iFirst (a : Option Int) : Int := match a with | none => -maxsize | some a => a
-def iLast (b : Option Int) : Int := match b with | none => maxsize | some b => b - 1
+/-- `i_first = index.start` (or −∞), `i_last = index.stop - 1` (or +∞). -/
+def iFirst (a : Option Int) : Option Int := a
+def iLast (b : Option Int) : Option Int := b.map (· - 1)
 
 /-- `Annotation.__getitem__(slice(a, b))`. -/
 def sliceAnnotE (a b : Option Int) (ann : Annot) : Except Err Annot :=
@@ -136,6 +143,17 @@ def sliceFeature (iF iL : Int) (f : Feature) : Option Feature :=
   if ls.length > 0 then some { f with locs := ls } else none
 
 def sliceAnnot (iF iL : Int) (ann : Annot) : Annot := ann.filterMap (sliceFeature iF iL)
+
+/-- With an open side nothing is removed on that side: the window of a location is bounded there
+by the location itself. -/
+def sliceLocO (iF iL : Option Int) (l : Loc) : Option Loc :=
+  sliceLoc (iF.getD l.first) (iL.getD l.last) l
+
+def sliceFeatureO (iF iL : Option Int) (f : Feature) : Option Feature :=
+  let ls := f.locs.filterMap (sliceLocO iF iL)
+  if ls.length > 0 then some { f with locs := ls } else none
+
+def sliceAnnotO (iF iL : Option Int) (ann : Annot) : Annot := ann.filterMap (sliceFeatureO iF iL)
 
 /-! ## Sequences (numpy code arrays) -/
 
@@ -188,6 +206,8 @@ def getSlice (s : ASeq) (a b : Option Int) : Except Err ASeq :=
   match seqStart? with
   | .error e => .error e
   | .ok seqStart =>
+    -- `self._check_position(index.stop)`: a stop left of the sequence start is refused, not wrapped around
+    if (match b with | none => false | some b => decide (b < s.start)) then .error .indexError else
     let seqStop : Int := match b with
       | none => (s.seq.length : Int)
       | some b => b - s.start
@@ -206,8 +226,9 @@ def getSlice (s : ASeq) (a b : Option Int) : Except Err ASeq :=
 def getInt (s : ASeq) (p : Int) : Except Err Nat :=
   let i := p - s.start
   let n : Int := s.seq.length
-  if i < -n ∨ i ≥ n then .error .indexError
-  else match s.seq[(if i < 0 then i + n else i).toNat]? with
+  -- `_check_position` refuses `p < start` (no counting from the end); numpy refuses `i ≥ n`
+  if i < 0 ∨ i ≥ n then .error .indexError
+  else match s.seq[i.toNat]? with
     | some c => .ok c
     | none => .error .indexError
 
@@ -226,11 +247,12 @@ def sortBy {α : Type} (le : α → α → Bool) : List α → List α
   | [] => []
   | x :: xs => insertBy le x (sortBy le xs)
 
-/-- `sorted(locs, key=first)` / `sorted(locs, key=last, reverse=True)`. -/
+/-- `sorted(locs, key=(first, last))` / `sorted(locs, key=(last, first), reverse=True)`: the second key
+makes the order independent of the set iteration order unless two locations span the same bases. -/
 def bioOrder (st : Strand) (ls : List Loc) : List Loc :=
   match st with
-  | .fwd => sortBy (fun a b => decide (a.first ≤ b.first)) ls
-  | .rev => sortBy (fun a b => decide (b.last ≤ a.last)) ls
+  | .fwd => sortBy (fun a b => decide (a.first < b.first ∨ (a.first = b.first ∧ a.last ≤ b.last))) ls
+  | .rev => sortBy (fun a b => decide (b.last < a.last ∨ (b.last = a.last ∧ b.first ≤ a.first))) ls
 
 /-- The bases of one location as read by `__getitem__(Feature)`. -/
 def locSub (s : ASeq) (l : Loc) : List Nat :=
@@ -244,7 +266,10 @@ def getFeature (s : ASeq) (f : Feature) : Except Err (List Nat) :=
   if f.locs.length = 0 then .error .valueError
   else match uniformStrand f.locs with
     | none => .error .valueError
-    | some st => .ok ((bioOrder st f.locs).flatMap (locSeq s))
+    | some st =>
+      -- `_check_position(loc.first)` in the concatenation loop
+      if (bioOrder st f.locs).any (fun l => decide (l.first < s.start)) then .error .indexError
+      else .ok ((bioOrder st f.locs).flatMap (locSeq s))
 
 /-- Order in which `__setitem__(Feature)` writes (after the ordering fix): the order of
 `__getitem__`; a feature that is not entirely on the reverse strand is written by `first`. -/
@@ -265,6 +290,8 @@ def setLoop (start : Int) (x : List Nat) : List Loc → Int → List Nat → Lis
 
 /-- `AnnotatedSequence.__setitem__(Feature, item)`. -/
 def setFeature (s : ASeq) (f : Feature) (x : List Nat) : ASeq × Option Err :=
+  -- all locations are checked against the sequence start before anything is written
+  if (setOrder f.locs).any (fun l => decide (l.first < s.start)) then (s, some .indexError) else
   let r := setLoop s.start x (setOrder f.locs) 0 s.seq
   ({ s with seq := r.1 }, r.2)
 
@@ -272,8 +299,8 @@ def setFeature (s : ASeq) (f : Feature) (x : List Nat) : ASeq × Option Err :=
 def setInt (s : ASeq) (p : Int) (c : Nat) : Except Err ASeq :=
   let i := p - s.start
   let n : Int := s.seq.length
-  if i < -n ∨ i ≥ n then .error .indexError
-  else .ok { s with seq := s.seq.set (if i < 0 then i + n else i).toNat c }
+  if i < 0 ∨ i ≥ n then .error .indexError
+  else .ok { s with seq := s.seq.set i.toNat c }
 
 def Strand.flip : Strand → Strand
   | .fwd => .rev
@@ -380,8 +407,10 @@ def annotRange (a : Annot) : Int × Int :=
     (maxsize, -maxsize)
   (r.1, r.2 + 1)
 
-/-- `AnnotatedSequence.__setitem__(slice(a, b), item)` (no range check in the code). -/
+/-- `AnnotatedSequence.__setitem__(slice(a, b), item)` (bounds left of the sequence start are refused; beyond the end numpy clips). -/
 def setSlice (s : ASeq) (a b : Option Int) (v : List Nat) : Except Err ASeq :=
+  if (match a with | none => false | some a => decide (a < s.start)) then .error .indexError else
+  if (match b with | none => false | some b => decide (b < s.start)) then .error .indexError else
   let seqStart : Int := match a with | none => 0 | some a => a - s.start
   let seqStop : Int := match b with | none => (s.seq.length : Int) | some b => b - s.start
   match assignSlice s.seq seqStart seqStop v with
